@@ -293,6 +293,14 @@ class _Run:
             return sl[it]
         if it[0] == "call" and it[1] in ("enumerate", "list", "tuple", "reversed", "sorted", "iter") and len(it[2]) >= 1:
             return self.known_len(it[2][0])
+        if it[0] in ("genexp", "listcomp") and len(it) == 3 and all(not conds for _i, conds in it[2]):
+            # an unfiltered comprehension over sequences of known length: the product of the lengths
+            ns = [self.known_len(g_it) for g_it, _c in it[2]]
+            if all(n_ is not None for n_ in ns):
+                out_ = 1
+                for n_ in ns:
+                    out_ *= n_
+                return out_
         if it[0] == "call" and it[1] == "zip" and it[2]:
             ns = [self.known_len(a) for a in it[2]]
             return min(ns) if all(n is not None for n in ns) else None
@@ -344,6 +352,27 @@ class _Run:
         underlying sequences so that the same element has the same identity in different loops."""
         if isinstance(it, tuple) and it and it[0] == "tuple" and i < len(it[1]):
             return it[1][i]
+        if isinstance(it, tuple) and it and it[0] in ("genexp", "listcomp") and len(it) == 3 and all(not conds for _i, conds in it[2]):
+            ns = [self.known_len(g_it) for g_it, _c in it[2]]
+            if all(n_ is not None and n_ > 0 for n_ in ns):
+                # element i of an unfiltered comprehension: its element expression with the generators' variables at
+                # the i-th combination (the last generator runs fastest)
+                idxs = []
+                rem = i
+                for n_ in reversed(ns):
+                    idxs.append(rem % n_)
+                    rem //= n_
+                idxs.reverse()
+                gens_its = [g_it for g_it, _c in it[2]]
+
+                def put(v):
+                    if isinstance(v, tuple):
+                        if len(v) == 4 and v[0] == "iter" and v[3] == 0 and v[1] in gens_its:
+                            return self.element(v[1], v[2], idxs[gens_its.index(v[1])])
+                        return tuple(put(x) for x in v)
+                    return v
+
+                return put(it[1])
         if isinstance(it, tuple) and it and it[0] == "call" and it[1] == "zip" and it[2]:
             return ("tuple", tuple(self.element(a, lineno, i) for a in it[2]))
         if isinstance(it, tuple) and it and it[0] == "call" and it[1] == "enumerate" and len(it[2]) == 1:
@@ -460,6 +489,11 @@ class _Run:
             if len(xs) == 1:
                 return xs[0]
             return ("boolop", "Or", tuple(xs))
+        if k == "call" and v[1] == "bool" and len(v[2]) == 1 and not v[3]:
+            x = self.fold(v[2][0])
+            if is_const(x):
+                return const(bool(x[1]))
+            return v
         if k == "cmp":
             l, r = self.fold(v[2]), self.fold(v[3])
             op = v[1]
@@ -643,6 +677,11 @@ class _Run:
         f = self.eval(e.func, env)
         args = tuple(self.eval(a, env) for a in e.args)
         kws = tuple((k.arg, self.eval(k.value, env)) for k in e.keywords)
+        if f[0] == "ext" and f[1] in ("functools.partial", "partial") and args:
+            # a function with some arguments fixed: remembered, and unfolded when it is called
+            return ("partial", args[0], args[1:], kws)
+        if f[0] == "partial":
+            f, args, kws = f[1], tuple(f[2]) + args, tuple(f[3]) + kws
         if f[0] == "ext" and f[1] in ("any", "all") and len(e.args) == 1 and isinstance(e.args[0], (ast.GeneratorExp, ast.ListComp)) and len(e.args[0].generators) == 1:
             return self.quantifier(f[1], e.args[0], env)
         self.site += 1
